@@ -12,10 +12,18 @@ pub mod c03;
 pub mod c04;
 pub mod c05;
 pub mod c06;
+pub mod c07;
+pub mod c08;
 pub mod c09;
 pub mod c10;
 pub mod c11;
 pub mod c12;
+pub mod c13;
+pub mod c14;
+pub mod c15;
+pub mod c16;
+pub mod c17;
+pub mod c18;
 pub mod c19;
 
 pub type RunFn = fn(&RunCfg) -> (Outcome, EvidenceExtra);
@@ -38,10 +46,18 @@ pub fn registry() -> Vec<(&'static str, RunFn, ReplayFn)> {
         ("C04", c04::run as RunFn, replay_fn!(c04)),
         ("C05", c05::run as RunFn, replay_fn!(c05)),
         ("C06", c06::run as RunFn, replay_fn!(c06)),
+        ("C07", c07::run as RunFn, replay_fn!(c07)),
+        ("C08", c08::run as RunFn, replay_fn!(c08)),
         ("C09", c09::run as RunFn, replay_fn!(c09)),
         ("C10", c10::run as RunFn, replay_fn!(c10)),
         ("C11", c11::run as RunFn, replay_fn!(c11)),
         ("C12", c12::run as RunFn, replay_fn!(c12)),
+        ("C13", c13::run as RunFn, replay_fn!(c13)),
+        ("C14", c14::run as RunFn, replay_fn!(c14)),
+        ("C15", c15::run as RunFn, replay_fn!(c15)),
+        ("C16", c16::run as RunFn, replay_fn!(c16)),
+        ("C17", c17::run as RunFn, replay_fn!(c17)),
+        ("C18", c18::run as RunFn, replay_fn!(c18)),
         ("C19", c19::run as RunFn, replay_fn!(c19)),
     ]
 }
